@@ -65,7 +65,9 @@ def run_plan(prop, tier, plan, replay=None):
         if tiers and tier not in tiers:
             continue
         what = e.pop("what")
+        quota = e.pop("quota", None)
         r_ = rc.run_exec(tr, what, emit=True, backends=True, **e)       # an emit entry may carry invariants: laws and cases from one run
+        r_.quota = quota
         if r_.violated or r_.deadlock:
             rc.law_violation(vd, r_, what)
         results.append(r_)
@@ -83,7 +85,7 @@ def run_plan(prop, tier, plan, replay=None):
                             **{k: v for k, v in sim.items() if k not in ("samplek",)})
             results.append(r)
     limit = plan.get("limit", (6000, 30000))[0 if tier == "quick" else 1]
-    cases = rc.collect_cases(results, limit=limit)
+    cases = rc.collect_cases(results, limit=limit, tier=tier)
     stats["cases_emitted_distinct"] = len(cases)
     # (3) conformance: replay into the real code
     judge = plan.get("judge", default_judge)
